@@ -47,6 +47,75 @@ fn rankdef_fit_case<T: Sc>(rng: &mut Rng, case: u64, out: &mut CaseOut) {
     fit_checks::<T>(rng, case, out, "rank-deficient-fits", spec);
 }
 
+/// fits through the parallel constructors (1..7 right-hand sides): the call log of the parallel flavour is
+/// schedule dependent, so there is no twin here; report, Ok/Err, budget and the final state are checked
+fn parallel_fit_case<T: Sc>(rng: &mut Rng, case: u64, out: &mut CaseOut) {
+    let stream = "parallel-fits";
+    let g = gen_problem(rng, &GenOpts { nmax: 40, smax: 7, noise: 0.03, ..Default::default() });
+    let mut spec = g.spec;
+    spec.par = true;
+    spec.alpha0 = perturb_alpha(rng, &g.alpha_true, 0.2);
+    let cfg = LmCfg::random(rng);
+    let lm = cfg.make::<T>();
+    let np = spec.model.np();
+    let pool = rayon::ThreadPoolBuilder::new().num_threads(*rng.pick(&[1usize, 2, 3, 8])).build().unwrap();
+    let ctl = SpyCtl::new();
+    let Ok(p1) = pool.install(|| build_problem::<T>(&spec, &ctl)) else {
+        violation(out, stream, case, "valid problem rejected", spec.to_json());
+        return;
+    };
+    let yw0 = widen(&p1.weighted_data());
+    let r0 = p1.residuals();
+    let evals_before = ctl.n_eval.load(SeqCst);
+    let fit = pool.install(|| p1.fit(&lm));
+    let evals_in_fit = ctl.n_eval.load(SeqCst) - evals_before;
+    out.evals += 1;
+    out.nontrivial.push(crate::rng::hash_u64s([spec.hash(), crate::rng::fnv(cfg.to_json().to_string().as_bytes())]));
+    out.seen("right_hand_sides_parallel", format!("{}", spec.s()));
+    let term = fit.termination();
+    let success = fit.term_success();
+    if fit.is_ok() != success {
+        violation(out, stream, case, format!("parallel fit returned {} for termination {term}", if fit.is_ok() { "Ok" } else { "Err" }), json!({"problem": spec.to_json(), "optimizer": cfg.to_json()}));
+        return;
+    }
+    let max_fev = cfg.max_fev(np) as u64;
+    if fit.report().number_of_evaluations as u64 > max_fev || evals_in_fit > max_fev {
+        violation(out, stream, case, format!("evaluation budget exceeded in a parallel fit: {} evaluations, budget {max_fev}", fit.report().number_of_evaluations), json!({"problem": spec.to_json(), "optimizer": cfg.to_json()}));
+        return;
+    }
+    if !success {
+        return;
+    }
+    let alpha: Vec<f64> = fit.nonlinear_parameters().iter().map(|v| v.w()).collect();
+    let (Some(c), Some(r)) = (fit.coeffs(), fit.problem_residuals()) else {
+        violation(out, stream, case, format!("successful parallel fit ({term}) without coefficients/residuals"), json!({"problem": spec.to_json()}));
+        return;
+    };
+    let c = widen(&c);
+    let r: Vec<f64> = r.iter().map(|v| v.w()).collect();
+    let nv = out.violations.len();
+    crate::props::c01::check_state::<T>(out, stream, case, &spec, &yw0, &alpha, &c, T::EPS, "final state of a successful parallel fit");
+    if out.violations.len() > nv {
+        return;
+    }
+    if !crate::props::c02::check_identity::<T>(out, stream, case, &spec, &yw0, &alpha, &c, &r, "final state of a successful parallel fit") {
+        return;
+    }
+    let obj = fit.report().objective_function.w();
+    let want = objective(&r);
+    let tol = if T::IS_F64 { 1e-12 } else { 32.0 * T::EPS };
+    if want > 1e-280 && (obj - want).abs() / want > tol {
+        violation(out, stream, case, format!("parallel fit: reported objective {obj:e} is not half the squared norm of the returned residuals {want:e}"), json!({"problem": spec.to_json(), "optimizer": cfg.to_json()}));
+        return;
+    }
+    if let Some(r0) = r0 {
+        let r0: Vec<f64> = r0.iter().map(|v| v.w()).collect();
+        if want > objective(&r0) * (1.0 + 8.0 * T::EPS) {
+            violation(out, stream, case, "parallel fit: objective after a successful fit is larger than at the initial guess", json!({"problem": spec.to_json(), "optimizer": cfg.to_json()}));
+        }
+    }
+}
+
 fn fit_checks<T: Sc>(rng: &mut Rng, case: u64, out: &mut CaseOut, stream: &str, spec: ProblemSpec) {
     let cfg = LmCfg::random(rng);
     let lm = cfg.make::<T>();
@@ -157,8 +226,9 @@ fn rng_chance(case: u64) -> bool {
 
 pub fn run(ctx: &Ctx) {
     ctx.rule("fits of zoo problems (1..3 right-hand sides, six weight classes, builder-made and hand-written, f32/f64, noiseless and 5% noise) from starts within 10%, 0.2x..5x and 0.4x..2.5x of the generating parameters under random optimizer settings (patience 1..100, tolerances 0..1e-2, step bound 0.01..100, scale_diag on/off, and the default); each fit is run twice: the real LevMarSolver::fit with a ModelSpy log, and minimize over a ProblemSpy with the same optimizer; the two call logs, reports and final parameters must be identical, then: Ok <=> successful termination, model evaluations and number_of_evaluations <= patience·(P+1), and for successful fits the C01 certificate and C02 identity at the returned state, objective = 1/2|r|^2 (1e-12), objective <= objective at the initial guess. distinct = (problem, optimizer configuration); every fit is non-trivial");
-    ctx.assume("sequential flavour only (the parallel flavour's call log is schedule dependent; C11 compares parallel fits with sequential ones)");
+    ctx.assume("the twin (call-log) comparison uses the sequential flavour only, because the parallel flavour's call log is schedule dependent; parallel fits (1..7 right-hand sides, pools of 1/2/3/8 threads) are checked on report, budget and final state");
     let t = ctx.tier;
     ctx.run_cases("fits", t.pick(12000, 640000), t.pick(20.0, 900.0), |r, c, o| if c % 4 == 0 { fit_case::<f32>(r, c, o) } else { fit_case::<f64>(r, c, o) });
+    ctx.run_cases("parallel-fits", t.pick(1500, 60000), t.pick(15.0, 600.0), |r, c, o| if c % 4 == 0 { parallel_fit_case::<f32>(r, c, o) } else { parallel_fit_case::<f64>(r, c, o) });
     ctx.run_cases("rank-deficient-fits", t.pick(2500, 120000), t.pick(15.0, 900.0), |r, c, o| if c % 4 == 0 { rankdef_fit_case::<f32>(r, c, o) } else { rankdef_fit_case::<f64>(r, c, o) });
 }
